@@ -38,6 +38,8 @@ def classify_exception(e: BaseException) -> str:
         return "Timeout"
     if isinstance(e, StopIteration):
         return "Stop"
+    if isinstance(e, RecursionError):
+        return "OutOfFuel"
     if isinstance(e, NotImplementedError):
         return "ENotImpl"
     if isinstance(e, OverflowError):
@@ -185,18 +187,33 @@ def build_coq(timeout=1800):
     return ok, out, time.time() - t0
 
 
-TAMPER = re.compile(r"\b(Admitted|admit|Axiom|Parameter|Conjecture|Unset Guard|bypass_check|type-in-type|"
-                    r"impredicative-set|Admit Obligations)\b")
+TAMPER_ANY = re.compile(r"\b(Admitted|admit|Unset Guard|bypass_check|type-in-type|impredicative-set|Admit Obligations)\b")
+TAMPER_DECL = re.compile(r"^\s*(?:Local\s+|Global\s+|#\[[^\]]*\]\s*)*(Axiom|Axioms|Parameter|Parameters|Conjecture|Conjectures)\b")
+SECTION_VAR = re.compile(r"^\s*(Variable|Variables|Hypothesis|Hypotheses|Context)\b")
 
 
 def tamper_scan():
+    """no Admitted/admit/Axiom/Parameter/Conjecture, no Variable/Hypothesis outside a Section, no disabled kernel checks"""
     hits = []
     for p in sorted(COQ.rglob("*.v")):
-        if "Cases" in p.parts:
+        if "Cases" in p.parts or p.name.startswith(("Tables_", "Run_")):
             continue
         txt = re.sub(r"\(\*.*?\*\)", "", p.read_text(), flags=re.S)
-        for m in TAMPER.finditer(txt):
+        txt = re.sub(r'"(?:[^"]|"")*"', '""', txt)          # string literals cannot declare anything
+        for m in TAMPER_ANY.finditer(txt):
             hits.append(f"{p.relative_to(COQ)}: {m.group(0)}")
+        depth = 0
+        for line in txt.splitlines():
+            if re.match(r"^\s*Section\b", line):
+                depth += 1
+            elif re.match(r"^\s*End\b", line) and depth > 0:
+                depth -= 1
+            m = TAMPER_DECL.match(line)
+            if m:
+                hits.append(f"{p.relative_to(COQ)}: {m.group(1)}")
+            m = SECTION_VAR.match(line)
+            if m and depth == 0:
+                hits.append(f"{p.relative_to(COQ)}: {m.group(1)} outside a section")
     proj = (COQ / "_CoqProject").read_text()
     if "type-in-type" in proj or "impredicative" in proj:
         hits.append("_CoqProject: forbidden flag")
